@@ -41,6 +41,7 @@ TRUSTED_BASE = [
 ]
 ASSUMPTIONS = [
     "observable values are Python ints; computed functions are pure DSL terms (reads, +, if) - functions with side effects occur only as throw-away writer Computeds (cycle clause)",
+    "a computed flagged none0 returns None where the model value is 0 (a function may legitimately return None) and every read of a Computable maps None back to 0, so the model stays over Z while None flows through _value, the remembered parent values and the forwarded change signals",
     "top-level sequences of assignments and reads (the quantifier); handlers that read a Computable during a notification are outside it",
     "owners carry only Observable and Computable descriptors (every signal-type set is {'change'}), so the check is insensitive to the C16 unobserve defect and to its repair",
     "the cycle clause is demanded for a function that itself reads an observable and later writes it; transitive cycles through a cached Computable are recorded, not demanded",
@@ -85,7 +86,8 @@ def _rand_case(rng, nops):
     ncomp = rng.randint(1, 4)
     comps = []
     for j in range(ncomp):
-        comps.append({"owner": rng.randrange(nown), "expr": _rand_expr(rng, owners, j, rng.choice([1, 2, 2, 3]))})
+        comps.append({"owner": rng.randrange(nown), "expr": _rand_expr(rng, owners, j, rng.choice([1, 2, 2, 3])),
+                      "none0": rng.random() < 0.5})
     hist = {}
     ops = []
     cur = {(o, n): init[o][n] for o in range(nown) for n in range(owners[o])}
@@ -140,6 +142,12 @@ def _corner_cases():
     cs.append({"init": [[1, 10]], "comps": [{"owner": 0, "expr": ["if", ["o", 0, 0], ["c", 5], ["c", 5]]},
                                              {"owner": 0, "expr": ["+", ["o", 0, 1], ["k", 0]]}],
                "ops": [["read", 1], ["set", 0, 1, 11], ["set", 0, 0, 2], ["read", 1], ["set", 0, 0, 3], ["read", 1]]})
+    # an upstream Computable whose function legitimately returns None (model value 0), read only through the chain
+    cs.append({"init": [[0, 10]], "comps": [{"owner": 0, "expr": ["if", ["o", 0, 0], ["o", 0, 1], ["c", 0]], "none0": True},
+                                             {"owner": 0, "expr": ["+", ["k", 0], ["c", 1]], "none0": False},
+                                             {"owner": 0, "expr": ["if", ["k", 0], ["c", 0], ["c", 7]], "none0": True}],
+               "ops": [["read", 1], ["set", 0, 0, 1], ["read", 1], ["read", 2], ["set", 0, 0, 0], ["read", 2], ["read", 1],
+                       ["set", 0, 1, 0], ["set", 0, 0, 1], ["read", 1], ["set", 0, 1, 4], ["read", 2], ["read", 1]]})
     # several owners, chain of three
     cs.append({"init": [[1], [2], [3]], "comps": [{"owner": 0, "expr": ["+", ["o", 1, 0], ["o", 2, 0]]},
                                                    {"owner": 1, "expr": ["if", ["o", 0, 0], ["k", 0], ["o", 2, 0]]},
@@ -184,7 +192,9 @@ def enumerate_cases(tier, broken=False):
     """all op sequences of length <= 4 (5 thorough) over {set x 0|1, set y 0|1, read c0, read c1} on six
     two-observable, two-computed shapes (chain, branch flip, constant branch, cross-owner, ...)"""
     ln = 5 if tier == "thorough" else 4
-    for init, comps in _TEMPLATES:
+    for ti, (init, comps0) in enumerate(_TEMPLATES + _TEMPLATES):
+        # second pass: the functions return None where the model value is 0
+        comps = [dict(c, none0=(ti >= len(_TEMPLATES))) for c in comps0]
         if len(init) == 1:
             xs = [(0, 0), (0, 1)]
         else:
@@ -206,6 +216,11 @@ def enumerate_cases(tier, broken=False):
 # ------------------------------------------------------------------ implementation side
 class _Env:
     pass
+
+
+def _z(v):
+    """a Computable of a `none0` computed holds None where the model holds 0 (a function may legitimately return None)"""
+    return 0 if v is None else v
 
 
 _FROZEN = []
@@ -252,7 +267,7 @@ def _classify_spurious(env, j):
             oi = env.ids.get(id(parent))
             for name, old in list(comp.parents[parent].items()):
                 src = ("o", oi, int(name[1:])) if name[0] == "x" else ("k", int(name[1:]))
-                if _cur(env, src) != old:
+                if _cur(env, src) != _z(old):
                     if src in last:
                         return "remembered-parent-value-was-never-read", f"remembers {name}={old} of owner {oi}, but the value it read was {dict(env.last_reads[j])[src]}"
                     if src in env.ever_reads[j]:
@@ -294,7 +309,7 @@ def _mk_func(env, j, expr):
             o = env.owners.get(env.cowner[k])
             if o is None or k >= j:
                 return 0
-            v = getattr(o, f"c{k}")
+            v = _z(getattr(o, f"c{k}"))
             env.reads.append((("k", k), v))
             _chain_check(env, k, v, f"computed c{j}")
             return v
@@ -325,7 +340,7 @@ def _mk_func(env, j, expr):
             env.reads = saved
         env.last_reads[j] = mine
         env.ever_reads[j].update(s for s, _ in mine)
-        return r
+        return None if (r == 0 and env.none0[j]) else r
 
     return func
 
@@ -358,6 +373,7 @@ def run_impl(case):
     env.nobs = [len(v) for v in init]
     env.cowner = [c["owner"] for c in comps]
     env.exprs = [c["expr"] for c in comps]
+    env.none0 = [bool(c.get("none0", False)) for c in comps]
     env.cnt = [0] * len(comps)
     env.last_reads = {}
     env.ever_reads = [set() for _ in comps]
@@ -412,7 +428,7 @@ def run_impl(case):
                 if env.cowner[j] not in env.alive:
                     obs.append([-2])
                     continue
-                got = getattr(env.owners[env.cowner[j]], f"c{j}")
+                got = _z(getattr(env.owners[env.cowner[j]], f"c{j}"))
                 exp = _pure(env, env.exprs[j], j)
                 if got != exp:
                     dead = []
@@ -484,7 +500,7 @@ def _win(env, acts, ms, Computable, Computed, HasObservables):
                 o = env.owners.get(env.cowner[k])
                 if o is None:
                     continue
-                v = getattr(o, f"c{k}")
+                v = _z(getattr(o, f"c{k}"))
                 _chain_check(env, k, v, "a writer function")
             else:
                 _, oi, n, v = a
